@@ -280,11 +280,11 @@ PROPS = {
     'C19': dict(level='proof', module='EscProofs.P.C19Fresh',
                 # churn: nodes come due, instances arrive, the cloud group's bounds move; with -slow the provider is rebuilt in between (5 s of real sleep each)
                 streams=dict(quick=[('scenario', ['-dir', '@ROOT/corpus/C19']), ('awsops', ['-n', 3000]), ('hist', ['-n', 300, '-scans', 10]), ('hist', ['-n', 150, '-scans', 10, '-focus', 'churn']),
-                                    ('hist', ['-n', 16, '-scans', 7, '-focus', 'churn', '-slow'])],
+                                    ('hist', ['-n', 16, '-scans', 7, '-focus', 'churn', '-slow']), ('forever', [])],
                              thorough=[('scenario', ['-dir', '@ROOT/corpus/C19']), ('awsops', ['-n', 200000]), ('hist', ['-n', 15000, '-scans', 12]), ('hist', ['-n', 8000, '-scans', 12, '-focus', 'churn']),
-                                       ('hist', ['-n', 160, '-scans', 8, '-focus', 'churn', '-slow'])],
-                             search=[('awsops', ['-n', 20000]), ('hist', ['-n', 1500, '-scans', 12]), ('hist', ['-n', 1000, '-scans', 12, '-focus', 'churn']), ('hist', ['-n', 32, '-scans', 8, '-focus', 'churn', '-slow'])]),
-                aspects=['journal', 'outcome', 'cached-desired', 'hist:removals', 'hist:outcome'], monitors=['C19'],
+                                       ('hist', ['-n', 160, '-scans', 8, '-focus', 'churn', '-slow']), ('forever', [])],
+                             search=[('awsops', ['-n', 20000]), ('hist', ['-n', 1500, '-scans', 12]), ('hist', ['-n', 1000, '-scans', 12, '-focus', 'churn']), ('hist', ['-n', 32, '-scans', 8, '-focus', 'churn', '-slow']), ('forever', [])]),
+                aspects=['journal', 'outcome', 'cached-desired', 'hist:removals', 'hist:outcome', 'forever-notingroup'], monitors=['C19'],
                 theorems=['Esc.P.C19_delete', 'Esc.P.C19_count', 'Esc.P.C19_refuse', 'Esc.P.C19_k8s_after_cloud', 'Esc.P.C19_scan_batches',
                           'Esc.P.C19_not_member_scan', 'Esc.P.C19_not_member_fatal', 'Esc.P.C19_membership_fresh', 'Esc.P.forever_stops_on_every_error', 'Esc.P.gen_deleteGuard_eq', 'Esc.P.C19_source_guard', 'Esc.P.gen_aws_translation_complete'],
                 technique='Lean 4 theorem over the model of aws.NodeGroup.DeleteNodes and TryDeleteNodes (induction over the node list, every failing index) lifted to the scan journal shape + differential correspondence + monitors',
@@ -348,7 +348,7 @@ PROPS = {
                 streams=dict(quick=[('scenario', ['-dir', '@ROOT/corpus/C20']), ('hist', ['-n', 500, '-scans', 8, '-focus', 'faults']), ('hist', ['-n', 16, '-scans', 7, '-focus', 'churn', '-slow']), ('hist', ['-n', 24, '-scans', 8, '-focus', 'fleetfail']), ('forever', [])],
                              thorough=[('scenario', ['-dir', '@ROOT/corpus/C20']), ('hist', ['-n', 30000, '-scans', 10, '-focus', 'faults']), ('hist', ['-n', 160, '-scans', 6, '-focus', 'faults', '-slow']), ('hist', ['-n', 160, '-scans', 8, '-focus', 'churn', '-slow']), ('hist', ['-n', 600, '-scans', 10, '-focus', 'fleetfail']), ('forever', [])],
                              search=[('hist', ['-n', 2500, '-scans', 8, '-focus', 'faults']), ('hist', ['-n', 32, '-scans', 8, '-focus', 'churn', '-slow']), ('hist', ['-n', 80, '-scans', 8, '-focus', 'fleetfail']), ('forever', [])]),
-                aspects=['hist:outcome', 'hist:reccount', 'hist:ok', 'panic', 'forever-outcome'], monitors=['C20'],
+                aspects=['hist:outcome', 'hist:reccount', 'hist:ok', 'panic', 'forever-outcome', 'forever-notingroup'], monitors=['C20'],
                 theorems=['Esc.P.C20_outcomes', 'Esc.P.C20_fatal_only_partial', 'Esc.P.C20_contained', 'Esc.P.C20_provider_id_guard', 'Esc.P.C20_ready_bounded',
                           'Esc.P.C12_containment', 'Esc.P.C20_stop_founded', 'Esc.P.tryDelete_notInGroup', 'Esc.P.forever_stops_on_every_error'],
                 technique='Lean 4 theorem (totality/termination of the model by construction, enumeration of RunOnce outcomes, error containment, index guard) + differential correspondence of the outcome class of every scan under odd object shapes and single/double injected faults + monitor; partial',
